@@ -53,25 +53,28 @@ Proof.
     try (exfalso; intuition congruence); intuition (try congruence).
 Qed.
 
+(* every levelled finding of the report: the general section's (SSH-1 protocol banner, non-printable banner) and the algorithm notes *)
+Definition report_levels (p : peer) (r : report) : list level := pr_general p ++ levels_of (rp_items r).
+
+Lemma report_levels_in p r l :
+  In l (report_levels p r) <-> In l (pr_general p) \/ exists it, In it (rp_items r) /\ In l (map fst (snd it)).
+Proof. unfold report_levels, levels_of. rewrite in_app_iff, in_flat_map. reflexivity. Qed.
+
 Theorem report_status_is_worst (p : peer) (d0 : db) :
   let r := report_of p d0 in
-  (rp_status r = exit_FAILURE <-> exists it, In it (rp_items r) /\ In LFail (map fst (snd it))) /\
-  (rp_status r = exit_WARNING <-> (~ exists it, In it (rp_items r) /\ In LFail (map fst (snd it)))
-                                   /\ exists it, In it (rp_items r) /\ In LWarn (map fst (snd it))) /\
-  (rp_status r = exit_GOOD <-> forall it, In it (rp_items r) -> ~ In LFail (map fst (snd it)) /\ ~ In LWarn (map fst (snd it))).
+  (rp_status r = exit_FAILURE <-> In LFail (report_levels p r)) /\
+  (rp_status r = exit_WARNING <-> ~ In LFail (report_levels p r) /\ In LWarn (report_levels p r)) /\
+  (rp_status r = exit_GOOD <-> ~ In LFail (report_levels p r) /\ ~ In LWarn (report_levels p r)).
 Proof.
-  cbv zeta. cbn [rp_status rp_items report_of].
-  set (its := items_of _ p).
-  destruct (status_fold_spec (levels_of its)) as [HF [HW HG]].
-  assert (Hin: forall l, In l (levels_of its) <-> exists it, In it its /\ In l (map fst (snd it))).
-  { intros l. unfold levels_of. rewrite in_flat_map. reflexivity. }
-  split; [|split].
-  - rewrite HF. apply Hin.
-  - rewrite HW. rewrite !Hin. reflexivity.
-  - rewrite HG. rewrite !Hin. split.
-    + intros [A B] it Hit. split; intros H; [apply A|apply B]; eauto.
-    + intros H. split; intros [it [Hit Hl]]; destruct (H it Hit); tauto.
+  cbv zeta. unfold report_levels. cbn [rp_status rp_items report_of].
+  exact (status_fold_spec _).
 Qed.
+
+(* in terms of items: a failure is a failed general finding or an item with a failure note, and so on *)
+Corollary report_status_failure_iff (p : peer) (d0 : db) :
+  let r := report_of p d0 in
+  rp_status r = exit_FAILURE <-> In LFail (pr_general p) \/ exists it, In it (rp_items r) /\ In LFail (map fst (snd it)).
+Proof. cbv zeta. destruct (report_status_is_worst p d0) as [HF _]. cbv zeta in HF. rewrite HF. apply report_levels_in. Qed.
 
 (* policy audits: exit status is GOOD exactly when passed, FAILURE exactly when failed *)
 Definition policy_exit (passed : bool) : Z := if passed then exit_GOOD else exit_FAILURE.
@@ -158,13 +161,14 @@ Theorem unknown_makes_status_nonzero p d0 c n :
   rp_status r <> exit_GOOD.
 Proof.
   cbv zeta. intros Hin Hn Hst. destruct (report_status_is_worst p d0) as [_ [_ HG]]. cbv zeta in HG.
-  rewrite HG in Hst. apply in_map_iff in Hin. destruct Hin as [[[[c0 n0] s] t] [E Hit]]. injection E as -> ->.
-  specialize (Hst _ Hit). cbn [snd] in Hst. cbn [rp_items rp_db report_of] in *.
+  rewrite HG in Hst. destruct Hst as [_ HW]. apply HW. apply report_levels_in. right.
+  apply in_map_iff in Hin. destruct Hin as [[[[c0 n0] s] t] [E Hit]]. injection E as -> ->.
+  exists (c, n, s, t). split; [exact Hit|]. cbn [snd]. cbn [rp_items rp_db report_of] in *.
   apply item_is_pointwise in Hit. destruct Hit as [Ht _].
   unfold alg_texts in Ht. destruct (str_is_blank (lookup_name c n)); [discriminate|]. rewrite Hn in Ht.
-  injection Ht as <-. cbn in Hst. tauto.
+  injection Ht as <-. cbn. tauto.
 Qed.
 
 Lemma status_is_function_of_items (p : peer) (d0 : db) :
-  rp_status (report_of p d0) = status_fold exit_GOOD (levels_of (rp_items (report_of p d0))).
+  rp_status (report_of p d0) = status_fold exit_GOOD (pr_general p ++ levels_of (rp_items (report_of p d0))).
 Proof. reflexivity. Qed.
